@@ -10,6 +10,7 @@
 -/
 import Proofs.GoTieMisc
 import Proofs.GoTieFormat
+import Proofs.GoTieMarshal
 namespace AgeModel
 namespace Tie.C07
 
@@ -60,6 +61,27 @@ theorem readStanza_sticky (D : Bytes → Go.M (Bytes × Option Go.Err)) (rd : By
     Extracted.format_StanzaReader_ReadStanza D ⟨rd, some e⟩ =
       .ok (({ Type_ := [], Args := [], Body := [] } : Extracted.format_Stanza), some e, ⟨rd, some e⟩) :=
   GoTie.readStanza_sticky D rd e
+
+/-! The header serialiser (internal/format/format.go: `Stanza.Marshal`, `Header.MarshalWithoutMAC`,
+`Header.Marshal`), translated on every run with the destination and the wrapped base64 encoder as
+abstract state (`GoTie.MarshalEnv`: the destination takes every write; a body written to the
+encoder comes out as unpadded base64 in 64-column lines): what reaches the destination is the
+model's `marshalStanza` / `marshalNoMAC` / `marshal`, byte for byte. -/
+
+theorem stanza_marshal_tie {δ ε ω : Type} (E : GoTie.MarshalEnv δ ε ω) (s : Format.Stanza) (d : δ) :
+    ∃ d', Extracted.format_Stanza_Marshal E.W E.b64 E.New E.Wr E.Cl (GoTie.toGoFStanza s) d = .ok (none, d') ∧
+      E.absD d' = E.absD d ++ Format.marshalStanza s :=
+  GoTie.stanza_marshal_tie E s d
+
+theorem header_marshalNoMAC_tie {δ ε ω : Type} (E : GoTie.MarshalEnv δ ε ω) (h : Format.Header) (d : δ) :
+    ∃ d', Extracted.format_Header_MarshalWithoutMAC E.W E.b64 E.New E.Wr E.Cl ⟨h.stanzas.map GoTie.toGoFStanza, h.mac⟩ d = .ok (none, d') ∧
+      E.absD d' = E.absD d ++ Format.marshalNoMAC h :=
+  GoTie.header_marshalNoMAC_tie E h d
+
+theorem header_marshal_tie {δ ε ω : Type} (E : GoTie.MarshalEnv δ ε ω) (h : Format.Header) (d : δ) :
+    ∃ d', Extracted.format_Header_Marshal E.W E.b64 E.New E.Wr E.Cl E.Enc ⟨h.stanzas.map GoTie.toGoFStanza, h.mac⟩ d = .ok (none, d') ∧
+      E.absD d' = E.absD d ++ Format.marshal h :=
+  GoTie.header_marshal_tie E h d
 
 end Tie.C07
 end AgeModel
